@@ -5,6 +5,13 @@ Headline theorems about the model `Irismod.Farm` (every state, every operation, 
 * (a) Σ farmers' stakes = pool total (`stakes_sum_run`), (b) module account = Σ stakes +
   Σ undistributed budgets (`module_account_run`), (c) principal leg always covered
   (`principal_covered_run`): invariants of *all* histories.
+* (e) community-pool farms (MsgCreatePoolWithCommunityPool, the proposal handler, the gov hooks):
+  the escrow collector holds exactly the funds of the escrow infos on record
+  (`escrow_account_run`), the gov account exactly the recorded deposits (`gov_account_run`), the
+  escrow infos mirror the live proposals (`escrow_tables_run`), the community pool is covered by
+  the distribution module account and moves in lock-step with it (`community_pool_backed_run`,
+  `community_pool_lockstep`): invariants of all histories over the extended operation alphabet;
+  (a)–(c) hold for pools created from the community pool as for any other.
 * (d) "a withdrawal up to the recorded stake never fails" is FALSE of the code
   (`withdraw_can_fail`, witness F-farm-1); what is true: it can only fail through a reward-
   collector shortfall (F-farm-1) or a decimal-range panic (`unstake_ok_partial`).
@@ -12,6 +19,7 @@ Headline theorems about the model `Irismod.Farm` (every state, every operation, 
 and the model follows the repaired `AdjustPool`.)
 -/
 import Irismod.Proofs.FarmWitness
+import Irismod.Proofs.FarmCpSettle
 
 namespace Irismod.Props.C05
 open Irismod Irismod.Sdk Irismod.Farm Irismod.Spec Irismod.Spec.C05 Irismod.Proofs.Farm
@@ -74,6 +82,53 @@ the module account. -/
 theorem principal_covered_run (s0 : State) (ops : List Op) (hg : Genesis s0) (hh : 0 ≤ s0.height) :
     PrincipalCovered (run s0 ops) :=
   principal_covered_of_inv (inv_run ops s0 (inv_genesis hg hh))
+
+/-! ### (e) community-pool farms: escrow collector, gov account, community pool -/
+
+/-- the bundle of the community-pool path holds initially … -/
+theorem cp_inv_init {s : State} (hg : Genesis s) : CpInv s := cpInv_genesis hg
+
+/-- … and is preserved by every operation (with the bundle `Inv`) … -/
+theorem cp_inv_step (s : State) (op : Op) (hi : Inv s) (hc : CpInv s) : CpInv (apply s op) := cpInv_apply s op hi hc
+
+/-- … hence along every history. -/
+theorem cp_inv_run (s0 : State) (ops : List Op) (hg : Genesis s0) (hh : 0 ≤ s0.height) : CpInv (run s0 ops) :=
+  cpInv_run ops s0 (inv_genesis hg hh) (cpInv_genesis hg)
+
+/-- **C05(e)**: along every history `balance(EscrowCollector) = Σ escrowInfos (fundApplied +
+fundSelfBond)`, denom by denom. -/
+theorem escrow_account_run (s0 : State) (ops : List Op) (hg : Genesis s0) (hh : 0 ≤ s0.height) :
+    EscrowAccount (run s0 ops) := (cp_inv_run s0 ops hg hh).escrow
+
+/-- along every history the gov module account holds exactly the deposits of the proposals on
+record (so gov's refund of a deposit cannot fail) -/
+theorem gov_account_run (s0 : State) (ops : List Op) (hg : Genesis s0) (hh : 0 ≤ s0.height) :
+    GovAccount (run s0 ops) := (cp_inv_run s0 ops hg hh).gov
+
+/-- along every history an escrow info exists exactly for the proposals gov has not finished
+with, and carries the proposer and the funds of the proposal -/
+theorem escrow_tables_run (s0 : State) (ops : List Op) (hg : Genesis s0) (hh : 0 ≤ s0.height) :
+    Tables (run s0 ops) := (cp_inv_run s0 ops hg hh).tables
+
+/-- **community pool covered**: along every history the fee pool's community pool never exceeds
+what the distribution module account holds. -/
+theorem community_pool_backed_run (s0 : State) (ops : List Op) (hg : Genesis s0) (hh : 0 ≤ s0.height) :
+    Backed (run s0 ops) := (cp_inv_run s0 ops hg hh).backed
+
+/-- **lock-step**: no operation changes `balance(distribution) × 10¹⁸ − communityPool`: whatever
+the farm module moves into or out of the distribution module account (escrow of applied funds,
+refund of an escrow, refund of an ended community-pool farm) it books on the community pool, coin
+for coin. -/
+theorem community_pool_lockstep (s : State) (op : Op) (hi : Inv s) (hc : CpInv s) (d : Denom) :
+    distrGap (apply s op) d = distrGap s d := lock_apply s op hi hc d
+
+/-- … so along every history the difference is what it was at the start -/
+theorem community_pool_lockstep_run : ∀ (ops : List Op) (s : State), Inv s → CpInv s → ∀ d, distrGap (run s ops) d = distrGap s d
+  | [], _, _, _, _ => rfl
+  | op :: ops, s, hi, hc, d => by
+    show distrGap (run (apply s op) ops) d = _
+    rw [community_pool_lockstep_run ops _ (inv_apply s op hi) (cpInv_apply s op hi hc) d]
+    exact lock_apply s op hi hc d
 
 /-! ### (d) the full statement is false: witness F-farm-1 -/
 
